@@ -5,6 +5,19 @@ or a type-checked structural rewrite.
 Every instance is recorded in the woven file (original text base64 in the marker) and
 listed in the evidence."""
 SHIMS = {
+    # ByteParser::feed
+    'use-utf8': dict(pattern=r'self\.parser\.parser_state\.lock\(\)\.unwrap\(\)\.use_utf8', replace=r'self.shim_use_utf8()', spec='r == use_utf8_of(parser) (abstract flag)'),
+    'decode-chunk': dict(pattern=r'let mut decoded = String::with_capacity\(.*?\);\s*let \(_result, _read, _had_errors\) =\s*self\.utf8_decoder\s*\.decode_to_string\(data, &mut decoded, false\);\s*decoded',
+                         replace=r'self.shim_decode_chunk(data)', spec='r@ == dec_out(dec, data), dec\' == dec_next(dec, data) (ASSUMED streaming contract of encoding_rs)'),
+    # `|&b| b as char`: Verus supports only variable parameters in closures; bind the reference and dereference it (Rust pattern semantics, u8 is Copy)
+    'closure-deref-b': dict(pattern=r'\|&b\| b as char', replace=r'|b__r: &u8| -> (r: char) ensures r == *b__r as char { let b = *b__r; b as char }', spec='Rust pattern semantics; the body `b as char` is verified'),
+    'bytes-map-open': dict(pattern=r'\bdata\.iter\(\)\.map\((?=\|&b\|)', replace=r'bytes_map_collect(data, ', spec='elementwise map, see bytes_map_collect'),
+    'bytes-map-close': dict(pattern=r'\)\.collect::<String>\(\)(?=\s*\})', replace=r')', spec='(closing half)'),
+    'char-to-string': dict(pattern=r'\bc\.to_string\(\)', replace=r'char_to_string(c)', spec='r@ == [c] (vstd specifies ToString::to_string generically, without content)'),
+    # Parser::feed: the three things it does with a character, called out to assumed deterministic steps
+    'is-special-start': dict(pattern=r'Self::is_special_start\(&char_str\)', replace=r'Self::shim_is_special_start(&char_str)', spec='r == is_special(c) (uninterpreted)'),
+    'listener-draw': dict(pattern=r'self\.listener\.lock\(\)\.unwrap\(\)\.draw\(&char_str\);', replace=r'self.shim_listener_draw(&char_str);', spec="world' == w_draw(world, c)"),
+    'fsm-send': dict(pattern=r'self\.parser_fsm\.send\(char_str\)\.unwrap_or\(false\)', replace=r'self.shim_fsm_send(char_str)', spec="(world', r) == w_send(world, c)"),
     # draw(): data.chars().map(CLOSURE).collect::<String>()  -> str_map_collect(data, CLOSURE); closure stays in verified text
     'str-map-open': dict(pattern=r'\bdata\s*\.chars\(\)\s*\.map\((?=\|c\|)', replace=r'str_map_collect(data, ', spec='elementwise map over the characters, see str_map_collect'),
     'str-map-close': dict(pattern=r'\)\s*\.collect::<String>\(\)(?=;)', replace=r')', spec='(closing half of str-map)'),
